@@ -309,8 +309,7 @@ def check_structure(repo, rep, tier="quick"):
     S.check_same_protocol(repo, rep, rid, cfgs=S.for_tier(tier))
 
 
-def check_fast_time(repo, rep):
-    rid = "C12-R5"
+def check_fast_time(repo, rep, rid="C12-R5"):
     rep.rule(rid, "fast matching: the simulated clock is set to the end of the fill minute before order.execute(), and to the end of "
                   "the chunk after matching (trace rule)")
     from vlib.traces import Tracer, Cfg, RAISE
